@@ -10,7 +10,7 @@ VT1 == {"0", "e", "-e", "pi/2", "-pi/2", "pi", "-pi", "pi/2+e", "pi/2-e", "-pi/2
         "mid", "turns", "big"}
 VT3 == {"0", "pi/2", "-pi/2", "pi", "pi/2-e", "mid", "turns"}
 VT3s == {"0", "pi/2", "pi/2-e", "mid"}
-VL  == {"1e-3", "1", "1e6", "1+4e-7", "1-7e-7", "1+3e-9"}     \* incl. lengths that are ALMOST one
+VL  == {"1e-9", "2e-7", "1e-3", "1", "1e6", "1+4e-7", "1-7e-7", "1+3e-9"}     \* incl. lengths that are ALMOST one
 VTr == {"0", "1e-6", "1", "1e6"}
 NoAng == {}
 NoQ == {}
